@@ -123,6 +123,43 @@ fn unlisted<'a>(prop: &str, o: &'a Outcome, known: &KnownFile, hits: &mut BTreeM
     v
 }
 
+// ------------------------------------------------------------------ watchdog (hang => exit 2, never a violation)
+
+static CASE_STARTED_MS: [std::sync::atomic::AtomicU64; 64] = [const { std::sync::atomic::AtomicU64::new(0) }; 64];
+
+fn now_ms() -> u64 {
+    static T0: std::sync::OnceLock<Instant> = std::sync::OnceLock::new();
+    T0.get_or_init(Instant::now).elapsed().as_millis() as u64 + 1
+}
+
+pub fn start_watchdog() {
+    static ONCE: std::sync::Once = std::sync::Once::new();
+    ONCE.call_once(|| {
+        let limit_ms: u64 =
+            std::env::var("CBV_WATCHDOG_S").ok().and_then(|s| s.parse().ok()).unwrap_or(120u64) * 1000;
+        std::thread::spawn(move || loop {
+            std::thread::sleep(std::time::Duration::from_secs(2));
+            let now = now_ms();
+            for slot in CASE_STARTED_MS.iter() {
+                let t = slot.load(std::sync::atomic::Ordering::Relaxed);
+                if t != 0 && now.saturating_sub(t) > limit_ms {
+                    eprintln!("watchdog: a single case has been running for more than {} s; inconclusive", limit_ms / 1000);
+                    println!("INCONCLUSIVE: watchdog fired (a case did not terminate)");
+                    std::process::exit(2);
+                }
+            }
+        });
+    });
+}
+
+pub fn case_begin(slot: usize) {
+    CASE_STARTED_MS[slot % 64].store(now_ms(), std::sync::atomic::Ordering::Relaxed);
+}
+
+pub fn case_end(slot: usize) {
+    CASE_STARTED_MS[slot % 64].store(0, std::sync::atomic::Ordering::Relaxed);
+}
+
 pub fn run_shard<E: Engine>(
     eng: &E,
     cfg: &CampaignCfg,
@@ -154,7 +191,9 @@ pub fn run_shard<E: Engine>(
     let prop = cfg.prop;
     let result = runner.run(&strat, |bytes| {
         let case = eng.decode(&bytes);
+        case_begin(shard);
         let o = eng.eval(&case);
+        case_end(shard);
         let mut st = stats.borrow_mut();
         let mut hits = BTreeMap::new();
         let bad: Vec<&Finding> = unlisted(prop, &o, known, &mut hits);
@@ -218,6 +257,7 @@ pub fn campaign<E: Engine>(
     cfg: &CampaignCfg,
     known: &KnownFile,
 ) -> (Stats, Option<Violation<E::Case>>) {
+    start_watchdog();
     let mut total = Stats::default();
     let mut first: Option<Violation<E::Case>> = None;
     let results: Vec<(Stats, Option<Violation<E::Case>>)> = std::thread::scope(|sc| {
